@@ -6,7 +6,7 @@ outside /repo and /verif, apply the patch, run the repository's own tests there 
 already kills is reported as such), run the quick checks with VERIF_REPO=<scratch>, and compare exit
 status only (1 = caught).  Scratch copies are removed afterwards.
 
-usage: run.py [--all-checks] [--only NAME_SUBSTRING] [--seeded] [--no-suite]
+usage: run.py [--all-checks] [--only NAME_SUBSTRING] [--seeded [--expected-only]] [--no-suite]
 """
 import argparse, glob, json, os, re, shutil, subprocess, sys, time
 
@@ -17,6 +17,7 @@ ap.add_argument("--all-checks", action="store_true")
 ap.add_argument("--only")
 ap.add_argument("--seeded", action="store_true")
 ap.add_argument("--no-suite", action="store_true")
+ap.add_argument("--expected-only", action="store_true", help="seeded: run only the check(s) of the property the change was written against")
 ap.add_argument("--out", default=os.path.join(VERIF, "selftest", "results.json"))
 args = ap.parse_args()
 
@@ -51,7 +52,7 @@ for name, patch, breaks in items:
             env = dict(os.environ, PYTHONPATH=os.path.join(scratch, "src"))
             t = subprocess.run(["/venv/bin/python", os.path.join(VERIF, "tools", "baseline_check.py"), scratch], env=env, capture_output=True, text=True)
             suite = "passes" if t.returncode == 0 else "KILLED-BY-SUITE"
-        checks = ALL if (args.all_checks or args.seeded) else sorted(set(breaks))
+        checks = ALL if (args.all_checks or (args.seeded and not args.expected_only)) else sorted(set(breaks))
         row = {"suite": suite, "expected": breaks, "checks": {}}
         for c in checks:
             t0 = time.time()
